@@ -8,7 +8,7 @@ Inductive cond :=
 | CFact            (* the "plain constructor" test of the code: `preferred_type.__init__ is Exception.__init__`
                       (or a call of a module-level predicate on preferred_type); a runtime fact of the type *)
 | CKnown           (* preferred_type in KNOWN_STRING_CONSTRUCTOR_ERRORS *)
-| CIsKeyError.     (* preferred_type is KeyError *)
+| CIsKeyError.     (* preferred_type is KeyError  /  preferred_type in (<the generated key_error_types>) *)
 
 Inductive action :=
 | ASame                  (* to_ret = preferred_type(self.get_message()) *)
